@@ -36,16 +36,16 @@ import (
 
 // VerifExchange is one query that reached the scripted upstream.
 type VerifExchange struct {
-	Upstream string // upstream.String() of the forwarder that was asked
-	Name     string // question name exactly as sent
-	Qtype    uint16
-	StartNs  int64 // virtual time the query was sent
-	DoneNs   int64 // virtual time the answer was handed back (0 while in flight)
-	Addrs    []netip.Addr
-	Ttl      uint32
-	Failed   bool
+	Upstream   string // upstream.String() of the forwarder that was asked
+	Name       string // question name exactly as sent
+	Qtype      uint16
+	StartNs    int64 // virtual time the query was sent
+	DoneNs     int64 // virtual time the answer was handed back (0 while in flight)
+	Addrs      []netip.Addr
+	Ttl        uint32
+	Failed     bool
 	Background bool // not started from inside a client question of the same thread (i.e. a refresh)
-	Thread   int
+	Thread     int
 }
 
 // VerifScript decides what the upstream answers. ok=false => the exchange fails (transport error).
@@ -55,19 +55,19 @@ type VerifDnsOpts struct {
 	Optimistic      bool
 	OptimisticTtl   int
 	MaxCacheSize    int
-	FixedDomainTtl  []string // as written in the configuration, e.g. "a: 5" (parsed by the production ParseFixedDomainTtl)
+	FixedDomainTtl  []string      // as written in the configuration, e.g. "a: 5" (parsed by the production ParseFixedDomainTtl)
 	Matcher         *VerifRouting // real routing matcher whose domain matcher feeds DomainBitmap (required)
-	WithKernelTable bool   // bind the production callbacks to a core that has (empty) bpf objects so that the tracker runs
+	WithKernelTable bool          // bind the production callbacks to a core that has (empty) bpf objects so that the tracker runs
 	Latency         time.Duration // virtual time one upstream exchange takes
 }
 
 type VerifDnsCtl struct {
-	id    uint32
-	Ctrl  *DnsController
-	opt   *DnsControllerOption
-	cp    *ControlPlane
-	core  *controlPlaneCore
-	opts  VerifDnsOpts
+	id     uint32
+	Ctrl   *DnsController
+	opt    *DnsControllerOption
+	cp     *ControlPlane
+	core   *controlPlaneCore
+	opts   VerifDnsOpts
 	script VerifScript
 
 	mu        sync.Mutex
@@ -394,8 +394,8 @@ type VerifReply struct {
 	Rcode     int
 	QName     string
 	QType     uint16
-	Addrs     []netip.Addr // A/AAAA records of the answer section, in order
-	Ttls      []uint32     // their TTL fields
+	Addrs     []netip.Addr    // A/AAAA records of the answer section, in order
+	Ttls      []uint32        // their TTL fields
 	Sync      []VerifExchange // upstream exchanges that started during the call (in the calling thread or not)
 	Panic     string
 }
@@ -565,19 +565,19 @@ func (e *VerifDnsCtl) ReloadClone() (*VerifDnsCtl, error) {
 // ---- canonical private-state dump (read-only) ---------------------------------------------------------------
 
 type VerifCacheEntryDump struct {
-	Key          string
-	Addrs        []netip.Addr
-	DeadlineRel  int64 // Deadline - now (ns)
-	OrigRel      int64 // OriginalDeadline - now
-	DeadlineNano int64 // deadlineNano - now, or -1<<62 when the field is 0 (never set)
-	PackedTtl    uint32
-	PackedRel    int64 // packedResponseCreatedAt - now (0 field => -1<<62)
-	HasPacked    bool
-	Refreshing   bool
+	Key           string
+	Addrs         []netip.Addr
+	DeadlineRel   int64 // Deadline - now (ns)
+	OrigRel       int64 // OriginalDeadline - now
+	DeadlineNano  int64 // deadlineNano - now, or -1<<62 when the field is 0 (never set)
+	PackedTtl     uint32
+	PackedRel     int64 // packedResponseCreatedAt - now (0 field => -1<<62)
+	HasPacked     bool
+	Refreshing    bool
 	LastAccessRel int64 // lastAccessNano - now (0 field => -1<<62)
-	RouteSyncRel int64
-	Bitmap       []uint32
-	Owner        string
+	RouteSyncRel  int64
+	Bitmap        []uint32
+	Owner         string
 }
 
 const verifNever = int64(-1) << 62
